@@ -1,7 +1,7 @@
 (* Type safety of the reference evaluator (Src/Eval.v) w.r.t. the declarative typing judgment
    of the model typechecker (Src/TypecheckSpec.v) -- definitions and basic lemmas:
      - facts about cty / accepts / merge,
-     - the syntactic side conditions `ready_*` (eval_ready) under which the theorem holds,
+     - the syntactic side condition `ready_*` (eval_ready) under which the theorem holds,
      - store typings, the extension order, value typing, environments realising contexts,
      - invariance of the typing judgment under lookup-equivalent contexts (for `for`).
    No axioms. *)
@@ -124,87 +124,102 @@ Proof. reflexivity. Qed.
 Lemma nilish_items_cons : forall i j t, nilish_items (i :: j :: t) = nilish_items (j :: t).
 Proof. reflexivity. Qed.
 
-Fixpoint mem (x : ident) (l : list ident) : bool :=
-  match l with [] => false | y :: t => N.eqb x y || mem x t end.
-
-Lemma mem_app : forall x l m, mem x (l ++ m) = mem x l || mem x m.
-Proof. induction l; simpl; intros; auto. rewrite IHl. now rewrite orb_assoc. Qed.
-
-(* names of the leading run of function items (declared together by the typechecker) *)
-Fixpoint run_names (l : list item) : list ident :=
-  match l with IFunc fd :: t => fd_name fd :: run_names t | _ => [] end.
-
-Definition eq_op (op : binop) : bool := match op with Eq | Ne => true | _ => false end.
-
-(* The items of a block.  P = names that are declared but not yet bound at run time: the later
-   functions of the runs of function items we are in.  A function item must not mention the
-   functions that follow it in its run (nor the pending names of the enclosing runs). *)
+(* The one side condition: no `let` / `var` initialiser is the literal nil (or a block ending in
+   it).  The typechecker gives such a name the type of nil, so the one cell may later be used at
+   two different record types (a genuine defect of the implementation, see the Example
+   stuck_nil_alias in Src/TypeSafety.v). *)
 Section ReadyItems.
-  Variable rf : list ident -> fdef -> bool.
+  Variable rf : fdef -> bool.
   Variable re : expr -> bool.
-  Variable P : list ident.
   Fixpoint ready_items_f (l : list item) : bool :=
     match l with
     | [] => true
     | i :: t =>
       match i with
       | ILet _ e | IVar _ e => re e && negb (nilish e)
-      | IFunc fd => rf (run_names t ++ P) fd
+      | IFunc fd => rf fd
       | IExpr e => re e
       end && ready_items_f t
     end.
 End ReadyItems.
 
-Fixpoint ready_expr (P : list ident) (e : expr) {struct e} : bool :=
+Fixpoint ready_expr (e : expr) {struct e} : bool :=
   match e with
-  | EInt _ | EBool _ | ERecNil _ => true
-  | EVar x => negb (mem x P)
-  | ENeg a | ENot a | EBNot a | EPrint a => ready_expr P a
-  | EField a _ _ => ready_expr P a
-  | EBin op a b => ready_expr P a && ready_expr P b &&
-                   (negb (eq_op op) || (negb (nilish a) && negb (nilish b)))
-  | ECond c a b => ready_expr P c && ready_expr P a && ready_expr P b
-  | EIf c a => ready_expr P c && ready_expr P a
-  | EAssign c a => ready_expr P c && ready_expr P a
-  | EWhile c a => ready_expr P c && ready_expr P a
-  | EDoWhile a c => ready_expr P a && ready_expr P c
-  | EIndex c a => ready_expr P c && ready_expr P a
-  | ECall f args => ready_expr P f && forallb (ready_expr P) args
-  | EBlock items => ready_items_f ready_fdef (ready_expr P) P items
-  | EFor i c s b => ready_expr P i && ready_expr P c && ready_expr P s && ready_expr P b
-  | ELambda fd => ready_fdef P fd
-  | EArrLit es _ => forallb (ready_expr P) es
-  | ERecNew _ es => forallb (ready_expr P) es
+  | EInt _ | EBool _ | ERecNil _ | EVar _ => true
+  | ENeg a | ENot a | EBNot a | EPrint a => ready_expr a
+  | EField a _ _ => ready_expr a
+  | EBin _ a b => ready_expr a && ready_expr b
+  | ECond c a b => ready_expr c && ready_expr a && ready_expr b
+  | EIf c a => ready_expr c && ready_expr a
+  | EAssign c a => ready_expr c && ready_expr a
+  | EWhile c a => ready_expr c && ready_expr a
+  | EDoWhile a c => ready_expr a && ready_expr c
+  | EIndex c a => ready_expr c && ready_expr a
+  | ECall f args => ready_expr f && forallb ready_expr args
+  | EBlock items => ready_items_f ready_fdef ready_expr items
+  | EFor i c s b => ready_expr i && ready_expr c && ready_expr s && ready_expr b
+  | ELambda fd => ready_fdef fd
+  | EArrLit es _ => forallb ready_expr es
+  | ERecNew _ es => forallb ready_expr es
   end
-with ready_fdef (P : list ident) (fd : fdef) {struct fd} : bool :=
+with ready_fdef (fd : fdef) {struct fd} : bool :=
   match fd with
   | FDef _ _ _ body catches call =>
-      ready_items_f ready_fdef (ready_expr P) P body &&
-      forallb (fun c => ready_items_f ready_fdef (ready_expr P) P (snd c)) catches &&
+      ready_items_f ready_fdef ready_expr body &&
+      forallb (fun c => ready_items_f ready_fdef ready_expr (snd c)) catches &&
       match call with
       | None => true
-      | Some b => ready_items_f ready_fdef (ready_expr P) P b
+      | Some b => ready_items_f ready_fdef ready_expr b
       end
   end.
 
-Definition ready_items (P : list ident) (l : list item) : bool :=
-  ready_items_f ready_fdef (ready_expr P) P l.
+Definition ready_items (l : list item) : bool := ready_items_f ready_fdef ready_expr l.
 
-Definition eval_ready (p : program) : bool := forallb (ready_fdef []) (p_funcs p).
+Definition eval_ready (p : program) : bool := forallb ready_fdef (p_funcs p).
 
-Lemma ready_EBlock : forall P items, ready_expr P (EBlock items) = ready_items P items.
+Lemma ready_EBlock : forall items, ready_expr (EBlock items) = ready_items items.
 Proof. reflexivity. Qed.
-Lemma ready_fdef_eq : forall P fd, ready_fdef P fd =
-  ready_items P (fd_body fd) && forallb (fun c => ready_items P (snd c)) (fd_catches fd) &&
-  match fd_catch_all fd with None => true | Some b => ready_items P b end.
+Lemma ready_fdef_eq : forall fd, ready_fdef fd =
+  ready_items (fd_body fd) && forallb (fun c => ready_items (snd c)) (fd_catches fd) &&
+  match fd_catch_all fd with None => true | Some b => ready_items b end.
 Proof. destruct fd; reflexivity. Qed.
-Lemma ready_items_cons : forall P i t, ready_items P (i :: t) =
+Lemma ready_items_cons : forall i t, ready_items (i :: t) =
   match i with
-  | ILet _ e | IVar _ e => ready_expr P e && negb (nilish e)
-  | IFunc fd => ready_fdef (run_names t ++ P) fd
-  | IExpr e => ready_expr P e
-  end && ready_items P t.
+  | ILet _ e | IVar _ e => ready_expr e && negb (nilish e)
+  | IFunc fd => ready_fdef fd
+  | IExpr e => ready_expr e
+  end && ready_items t.
 Proof. reflexivity. Qed.
+
+(* the function items of a run and what follows it *)
+Lemma ready_items_run : forall l, ready_items l = true ->
+  Forall (fun fd => ready_fdef fd = true) (run_funcs l) /\ ready_items (run_rest l) = true.
+Proof.
+  induction l as [|i l IH]; intros H; [simpl; auto|].
+  destruct i; try (simpl; auto; fail).
+  rewrite ready_items_cons in H. apply andb_true_iff in H. destruct H as [H1 H2].
+  destruct (IH H2). simpl. auto.
+Qed.
+
+(* a record name that is not declared: a cell typed at it can only hold nil *)
+Definition fresh_rec (R : list recdecl) : ident :=
+  N.succ (fold_right (fun d m => N.max (fst d) m) 0%N R).
+
+Lemma find_rec_le : forall R r fs, find_rec r R = Some fs ->
+  (r <= fold_right (fun d m => N.max (fst d) m) 0%N R)%N.
+Proof.
+  induction R as [|[n fs'] R IH]; intros r fs H; simpl in H; [discriminate|].
+  simpl. destruct (N.eqb_spec r n) as [->|Hn].
+  - apply N.le_max_l.
+  - apply IH in H. etransitivity; [exact H|apply N.le_max_r].
+Qed.
+
+Lemma find_rec_fresh : forall R, find_rec (fresh_rec R) R = None.
+Proof.
+  intros R. destruct (find_rec (fresh_rec R) R) as [fs|] eqn:E; auto.
+  apply find_rec_le in E. unfold fresh_rec in E. exfalso.
+  apply (N.nle_succ_diag_l _ E).
+Qed.
 
 (* ---- environments ------------------------------------------------------------------------ *)
 
@@ -238,8 +253,8 @@ Variable R : list recdecl.
 Variable genv : Eval.env.
 
 (* the environment realises the context: every visible name is bound to a cell of its type *)
-Definition env_ok (S : styping) (G : Types.env) (e : Eval.env) (P : list ident) : Prop :=
-  forall x t k, Types.lookup x G = Some (t, k) -> mem x P = false ->
+Definition env_ok (S : styping) (G : Types.env) (e : Eval.env) : Prop :=
+  forall x t k, Types.lookup x G = Some (t, k) ->
     exists c, lookup_var genv x e = Some c /\ nth_error S c = Some t.
 
 (* F_def with the scope of the function's own name already pushed *)
@@ -261,8 +276,8 @@ Qed.
 Inductive val_ok (S : styping) (st : state) : cellval -> cty -> Prop :=
 | V_int z : val_ok S st (Eval.CInt z) Types.CInt
 | V_bool b : val_ok S st (Eval.CBool b) Types.CBool
-| V_fun fd cenv Gf P :
-    env_ok S Gf cenv P -> FunOk' Gf fd -> ready_fdef P fd = true ->
+| V_fun fd cenv Gf :
+    env_ok S Gf cenv -> FunOk' Gf fd -> ready_fdef fd = true ->
     val_ok S st (Eval.CFun fd cenv)
            (Types.CFun (map (fun p => (snd (fst p), cty_of (snd p))) (fd_params fd)) (cty_of (fd_ret fd)))
 | V_arrnil t : val_ok S st (Eval.CArr None) (Types.CArr t)
@@ -297,9 +312,9 @@ Proof.
   intros S st S' st' cs ts [H _] T. induction T; constructor; auto.
 Qed.
 
-Lemma env_ok_ext : forall S st S' st' G e P, ext S st S' st' -> env_ok S G e P -> env_ok S' G e P.
+Lemma env_ok_ext : forall S st S' st' G e, ext S st S' st' -> env_ok S G e -> env_ok S' G e.
 Proof.
-  intros S st S' st' G e P [H _] He x t k L M. destruct (He x t k L M) as [c [H1 H2]]. eauto.
+  intros S st S' st' G e [H _] He x t k L. destruct (He x t k L) as [c [H1 H2]]. eauto.
 Qed.
 
 Lemma val_ok_ext : forall S st S' st' v t, ext S st S' st' -> val_ok S st v t -> val_ok S' st' v t.
@@ -311,24 +326,17 @@ Proof.
   - econstructor; eauto. eapply typed_cells_ext; eauto.
 Qed.
 
-Lemma env_ok_push : forall S G e P, env_ok S G e P -> env_ok S ([] :: G) e P.
-Proof. intros S G e P H x t k L M. rewrite lookup_push_nil in L. eauto. Qed.
-
-Lemma env_ok_more : forall S G e P Q, env_ok S G e P -> (forall x, mem x P = true -> mem x Q = true) ->
-  env_ok S G e Q.
-Proof.
-  intros S G e P Q H HPQ x t k L M. apply (H x t k L).
-  destruct (mem x P) eqn:E; auto. apply HPQ in E. congruence.
-Qed.
+Lemma env_ok_push : forall S G e, env_ok S G e -> env_ok S ([] :: G) e.
+Proof. intros S G e H x t k L. rewrite lookup_push_nil in L. eauto. Qed.
 
 Lemma lookup_var_cons : forall x y c e,
   lookup_var genv x ((y, c) :: e) = if N.eqb x y then Some c else lookup_var genv x e.
 Proof. intros. unfold lookup_var. simpl. destruct (N.eqb x y); auto. Qed.
 
-Lemma env_ok_declare : forall S G G' e x t k c P, env_ok S G e P ->
-  declare x (t, k) G = Ok G' -> nth_error S c = Some t -> env_ok S G' ((x, c) :: e) P.
+Lemma env_ok_declare : forall S G G' e x t k c, env_ok S G e ->
+  declare x (t, k) G = Ok G' -> nth_error S c = Some t -> env_ok S G' ((x, c) :: e).
 Proof.
-  intros S G G' e x t k c P He D Hc y t' k' L M.
+  intros S G G' e x t k c He D Hc y t' k' L.
   rewrite (declare_lookup _ _ _ _ D) in L. rewrite lookup_var_cons.
   destruct (N.eqb y x).
   - inversion L; subst. eauto.
@@ -343,9 +351,9 @@ Proof. intros S st v H. inversion H; eauto. Qed.
 Lemma val_nil : forall S st v, val_ok S st v Types.CNil -> False.
 Proof. intros S st v H. inversion H. Qed.
 Lemma val_fun : forall S st v ps r, val_ok S st v (Types.CFun ps r) ->
-  exists fd cenv Gf P, v = Eval.CFun fd cenv /\
+  exists fd cenv Gf, v = Eval.CFun fd cenv /\
     ps = map (fun p => (snd (fst p), cty_of (snd p))) (fd_params fd) /\ r = cty_of (fd_ret fd) /\
-    env_ok S Gf cenv P /\ FunOk' Gf fd /\ ready_fdef P fd = true.
+    env_ok S Gf cenv /\ FunOk' Gf fd /\ ready_fdef fd = true.
 Proof. intros S st v ps r H. inversion H; subst. eauto 10. Qed.
 Lemma val_arr : forall S st v t, val_ok S st v (Types.CArr t) ->
   v = Eval.CArr None \/
@@ -493,6 +501,68 @@ Lemma alloc_set_cell : forall st v0 v,
   set_cell (snd (alloc st v0)) (fst (alloc st v0)) v = snd (alloc st v).
 Proof. intros. unfold set_cell, alloc. simpl. now rewrite list_upd_snoc. Qed.
 
+Lemma Forall2_nth_both : forall A B (Q : A -> B -> Prop) l m i a b,
+  Forall2 Q l m -> nth_error l i = Some a -> nth_error m i = Some b -> Q a b.
+Proof.
+  intros A B Q l m i a b H. revert i. induction H; intros [|i] E1 E2; simpl in *; try discriminate.
+  - inversion E1; inversion E2; subst; auto.
+  - eauto.
+Qed.
+
+(* several new cells at once, each typed in the EXTENDED typing (the closures of a run of
+   function items refer to each other's cells) *)
+Lemma add_cells_ok : forall S st vs ts, st_ok S st -> Forall2 (val_ok (S ++ ts) st) vs ts ->
+  st_ok (S ++ ts) (add_cells st vs) /\ ext S st (S ++ ts) (add_cells st vs).
+Proof.
+  intros S st vs ts [HL HV] F.
+  assert (X : ext S st (S ++ ts) (add_cells st vs)).
+  { unfold ext; simpl. repeat split; auto. intros c t Hc. rewrite nth_error_app1; auto.
+    apply nth_error_Some. congruence. }
+  assert (X' : ext (S ++ ts) st (S ++ ts) (add_cells st vs)) by (unfold ext; simpl; auto).
+  split; auto. split; simpl.
+  - rewrite !app_length, HL. f_equal. symmetry. clear -F. induction F; simpl; auto.
+  - intros c v t Hc Ht.
+    destruct (Nat.lt_ge_cases c (length S)) as [Hlt|Hge].
+    + rewrite nth_error_app1 in Hc by lia. rewrite nth_error_app1 in Ht by lia.
+      eapply val_ok_ext; [exact X|]. eauto.
+    + rewrite nth_error_app2 in Hc by lia. rewrite nth_error_app2 in Ht by lia.
+      rewrite <- HL in Hc. eapply val_ok_ext; [exact X'|].
+      eapply Forall2_nth_both; eauto.
+Qed.
+
+(* the type at which an operand of == / != is evaluated: a nil literal is typed at a record
+   name that is not declared, so that its cell can only ever hold nil *)
+Definition ntgt (t : cty) : cty :=
+  match t with Types.CNil => Types.CRec (fresh_rec R) | _ => t end.
+
+Lemma accepts_ntgt : forall t, accepts (ntgt t) t = true.
+Proof.
+  intros t. destruct t; try reflexivity.
+  - exact (cty_eqb_refl (Types.CFun ps t)).
+  - exact (cty_eqb_refl (Types.CArr t)).
+  - exact (cty_eqb_refl (Types.CRec r)).
+Qed.
+
+Lemma cell_fresh_rec : forall S st c, st_ok S st ->
+  nth_error S c = Some (Types.CRec (fresh_rec R)) -> get_cell st c = Some (Eval.CRec None).
+Proof.
+  intros S st c Hs Hc. destruct (cell_get _ _ _ _ Hs Hc) as [v [E V]].
+  apply val_rec in V. destruct V as [->|[o [flds [fs [_ [_ [F _]]]]]]]; auto.
+  rewrite find_rec_fresh in F. discriminate.
+Qed.
+
+(* a cell of reference type holds a reference *)
+Lemma cell_ref : forall S st c t, st_ok S st -> nth_error S c = Some t ->
+  (exists ps r, t = Types.CFun ps r) \/ (exists e, t = Types.CArr e) \/ (exists r, t = Types.CRec r) ->
+  exists v n, get_cell st c = Some v /\ ref_is_nil v = Some n.
+Proof.
+  intros S st c t Hs Hc Ht. destruct (cell_get _ _ _ _ Hs Hc) as [v [E V]]. exists v.
+  destruct Ht as [[ps [r ->]]|[[e ->]|[r ->]]].
+  - apply val_fun in V. destruct V as [fd [cenv [Gf [-> _]]]]. simpl. eauto.
+  - apply val_arr in V. destruct V as [->|[a [elems [-> _]]]]; simpl; eauto.
+  - apply val_rec in V. destruct V as [->|[o [flds [fs [-> _]]]]]; simpl; eauto.
+Qed.
+
 End Store.
 
 (* ---- parameters ---------------------------------------------------------------------------- *)
@@ -522,26 +592,26 @@ Qed.
 Section Params.
 Variable genv : Eval.env.
 
-Lemma params_env_ok : forall S P ps Gf G' cs penv cenv,
+Lemma params_env_ok : forall S ps Gf G' cs penv cenv,
   declare_params ps Gf = Ok G' ->
   bind_params ps cs = Some penv ->
   Forall2 (fun c p => nth_error S c = Some (cty_of (snd p))) cs ps ->
-  env_ok genv S Gf cenv P -> env_ok genv S G' (penv ++ cenv) P.
+  env_ok genv S Gf cenv -> env_ok genv S G' (penv ++ cenv).
 Proof.
-  intros S P ps. induction ps as [|[[y v] t] ps IH]; intros Gf G' cs penv cenv D B T He.
+  intros S ps. induction ps as [|[[y v] t] ps IH]; intros Gf G' cs penv cenv D B T He.
   - destruct cs; inversion B; subst. inversion D; subst. exact He.
   - destruct cs as [|c cs]; [discriminate|]. simpl in B.
     destruct (bind_params ps cs) as [pe|] eqn:E; [|discriminate]. inversion B; subst. clear B.
     inversion T; subst. simpl in H2.
     simpl in D. destruct (declare y (cty_of t, if v then KVar else KConst) Gf) as [G1|] eqn:D1; [|discriminate].
     simpl in D.
-    assert (He1 : env_ok genv S G1 ((y, c) :: cenv) P) by (eapply env_ok_declare; eauto).
+    assert (He1 : env_ok genv S G1 ((y, c) :: cenv)) by (eapply env_ok_declare; eauto).
     pose proof (IH G1 G' cs pe ((y, c) :: cenv) D E H4 He1) as He2.
     (* y is not rebound by the remaining parameters *)
     assert (Hy : Eval.lookup y pe = None).
     { destruct (declare_shape _ _ _ _ D1) as [s [G0 ->]].
       eapply declare_params_fresh; eauto. simpl. rewrite N.eqb_refl. reflexivity. }
-    intros x t' k' L M. destruct (He2 x t' k' L M) as [c' [L1 L2]]. exists c'. split; auto.
+    intros x t' k' L. destruct (He2 x t' k' L) as [c' [L1 L2]]. exists c'. split; auto.
     unfold lookup_var in *. simpl. rewrite lookup_app in L1.
     destruct (N.eqb x y) eqn:Exy.
     + apply N.eqb_eq in Exy. subst x. rewrite Hy in L1. simpl in L1. rewrite N.eqb_refl in L1. exact L1.
